@@ -370,9 +370,9 @@ func RunHistory(rng *common.Rng, cfg Config) (*Run, error) {
 					if c.HasF && !eqInts(c.Flags, setOf(r.Flags)) {
 						canon := "learnt flags differ from reported flags"
 						if silentDeferred[o.S] {
-							// known finding: the session's own .SILENT store of a message it had put back itself (EXISTS still
-							// held) is held too and applied WITHOUT a response to the new instance by the next permitting
-							// command - after the FETCH responses of earlier changes told the client that instance's flags
+							// the defect repaired by b461893: the session's own .SILENT store of a message it had put back itself
+							// (EXISTS still held) was held too and applied WITHOUT a response to the new instance by the next
+							// permitting command - after the FETCH responses of earlier changes told the client its flags
 							canon = "silent-store-applied-to-readded-instance: " + canon
 						}
 						fail("C01", canon, fmt.Sprintf("session %d seq %d (uid %d): learnt %v, reported %v", o.S, r.N, r.UID, c.Flags, r.Flags))
